@@ -464,18 +464,32 @@ Proof.
 Qed.
 
 (* ------------------------------------------------------------------------------------------ *)
-(* the simulated tasks apply exactly the blocks of the closed form to what they decode          *)
+(* the simulated tasks apply exactly the blocks of the closed form to what they decode:
+   outstation: a request that is not a repetition of the previous one is handled by o_handle and the
+   application is handed the time o_handle computes, at the instant of arrival;
+   master: a well-formed response with the sequence number of the pending request, FIR|FIN, no IIN2
+   rejection, is handed to m_handle with its NEED_TIME bit and its classified objects *)
 
 Lemma seq_cases (seq : N) : (seq < 16)%N ->
   In seq [0; 1; 2; 3; 4; 5; 6; 7; 8; 9; 10; 11; 12; 13; 14; 15]%N.
 Proof.
-  intro H. cbn [In].
-  destruct seq as [|p]; [auto|].
-  do 4 (destruct p as [p|p|]; try lia; auto 20).
+  intro H. 
+  assert (Hc : (seq = 0 \/ seq = 1 \/ seq = 2 \/ seq = 3 \/ seq = 4 \/ seq = 5 \/ seq = 6 \/ seq = 7 \/ seq = 8 \/ seq = 9 \/ seq = 10 \/ seq = 11 \/ seq = 12 \/ seq = 13 \/ seq = 14 \/ seq = 15)%N) by lia.
+  cbn [In]. intuition congruence.
 Qed.
 
-(* outstation: a request that is not a repetition of the previous one is handled by o_handle; the
-   application is handed the time o_handle computes, at the instant of arrival *)
+Lemma outstation_wrote_keeps_o s data s' obs :
+  ts_outstation_wrote s data = (s', obs) ->
+  tss_o s' = tss_o s /\ (forall t v, ~ In (TsWritten t v) obs).
+Proof.
+  unfold ts_outstation_wrote.
+  destruct (0 <? ch_drop_back (tss_c s))%N.
+  - intro H; inversion H; subst. split; [reflexivity|]. intros t v [Hin|[]]. discriminate.
+  - destruct (ch_dup_back (tss_c s)).
+    + intro H; inversion H; subst. split; [reflexivity|]. intros t v [Hin|[Hin|[]]]; discriminate.
+    + intro H; inversion H; subst. split; [reflexivity|]. intros t v [Hin|[]]. discriminate.
+Qed.
+
 Lemma o_deliver_uses_o_handle cfg s seq r :
   (seq < 16)%N ->
   match r with TsRWriteAbs ts | TsRWriteLast ts => 0 <= ts <= ts_max | _ => True end ->
@@ -490,34 +504,20 @@ Proof.
   intros Hs Hr Hlast res.
   unfold o_deliver. rewrite (parse_enc_req seq r Hs Hr). rewrite Hlast.
   fold res.
-  destruct (ts_outstation_wrote
-              (ts_set_o s {| tos_time := or_st res;
-                             tos_last := Some {| ol_req := ts_enc_req seq r;
-                                                 ol_seq := match ts_enc_req seq r with c :: _ => (c mod 16)%N | [] => 0%N end;
-                                                 ol_iin1 := ts_need_bit (to_need (or_st res));
-                                                 ol_iin2 := Z.to_N (or_iin2 res);
-                                                 ol_objs := match or_delay res with Some d => ts_delay_objs d | None => [] end |} |})
-              (ts_enc_resp (match ts_enc_req seq r with c :: _ => (c mod 16)%N | [] => 0%N end)
-                           (ts_need_bit (to_need (or_st res))) (Z.to_N (or_iin2 res))
-                           (match or_delay res with Some d => ts_delay_objs d | None => [] end)))
-    as [s1 obs] eqn:Ew.
-  exists s1, obs. split; [reflexivity|]. split.
-  - unfold ts_outstation_wrote in Ew.
-    repeat match type of Ew with
-           | context [if ?x then _ else _] => destruct x
-           | context [match ?x with _ => _ end] => destruct x
-           end; inversion Ew; reflexivity.
-  - intros t v Hin. unfold ts_outstation_wrote in Ew.
-    repeat match type of Ew with
-           | context [if ?x then _ else _] => destruct x
-           | context [match ?x with _ => _ end] => destruct x
-           end; inversion Ew; subst; cbn [In] in Hin;
-      repeat match goal with H : _ \/ _ |- _ => destruct H as [H|H]; try discriminate end; auto.
+  match goal with |- context [ts_outstation_wrote ?a ?b] => destruct (ts_outstation_wrote a b) as [s1 obs] eqn:Ew end.
+  apply outstation_wrote_keeps_o in Ew. destruct Ew as [Ho Hnw].
+  exists s1, obs. split; [reflexivity|]. split; [|exact Hnw].
+  rewrite Ho. reflexivity.
 Qed.
 
-(* master: a well-formed response with the sequence number of the pending request, FIR|FIN, no IIN2
-   rejection, is handed to m_handle with the NEED_TIME bit and the classified objects; the task ends
-   with the error m_handle gives, completes, or sends its next request *)
+Lemma ctl_bits seq : (seq < 16)%N ->
+  ((192 + seq) mod 16 = seq)%N /\ N.testbit (192 + seq) 7 = true /\ N.testbit (192 + seq) 6 = true /\
+  N.testbit (192 + seq) 5 = false /\ N.testbit (192 + seq) 4 = false.
+Proof.
+  intro H. pose proof (seq_cases seq H) as Hc. cbn [In] in Hc.
+  repeat (destruct Hc as [Hc|Hc]; [subst seq; vm_compute; auto|]). destruct Hc.
+Qed.
+
 Lemma m_deliver_uses_m_handle cfg s t iin1 iin2 objs :
   tm_cur (tss_m s) = Some t -> (mt_seq t < 16)%N ->
   N.testbit iin1 7 = false -> N.land iin2 7 = 0%N ->
@@ -537,11 +537,10 @@ Lemma m_deliver_uses_m_handle cfg s t iin1 iin2 objs :
     end.
 Proof.
   intros Hcur Hseq Hr Hi2.
+  destruct (ctl_bits (mt_seq t) Hseq) as [Hm [H7 [H6 [H5 H4]]]].
   unfold m_deliver, ts_enc_resp. cbn [app].
-  rewrite Hr, Hcur.
-  pose proof (seq_cases (mt_seq t) Hseq) as Hc. cbn [In] in Hc.
-  repeat (destruct Hc as [Hc|Hc]; [rewrite <- Hc; cbn [N.add N.testbit N.modulo N.eqb negb andb orb];
-                                   vm_compute (N.eqb 129 130); vm_compute (N.eqb 129 129);
-                                   rewrite Hi2; reflexivity|]).
-  destruct Hc.
+  rewrite Hr, Hm, H7, H6, H4, Hcur.
+  change (129 =? 130)%N with false. change (129 =? 129)%N with true.
+  rewrite N.eqb_refl, Hi2. cbn [negb andb]. rewrite N.eqb_refl. cbn [negb].
+  reflexivity.
 Qed.
